@@ -685,6 +685,86 @@ fn external_mappings_grid() {
     out::count("external_mapping_constructor_refusals", refused as i128);
 }
 
+/// Owners are ordinary values: a child created by fork() inherits every one of them, and for the
+/// child, too, "a live handle never points at unmapped memory". Built through every construction
+/// route, reached through every kind of owner.
+#[cfg(not(miri))]
+fn forked_child_keeps_mappings() {
+    use crate::common::fork::{self, Exit};
+    use vm_memory::{Bytes, GuestMemory, GuestMemoryAtomic, GuestAddressSpace};
+    type GM = vm_memory::GuestMemoryMmap<()>;
+    let mk_file = |len: usize| -> Reg {
+        let f = crate::models::world::temp_file(len as u64 + 4096);
+        #[cfg(not(feature = "xen"))]
+        let reg = MmapRegion::<()>::from_file(FileOffset::new(f, 4096), len).unwrap();
+        #[cfg(feature = "xen")]
+        let reg = MmapRegion::<()>::from_range(vm_memory::MmapRange::new_unix(len, Some(FileOffset::new(f, 4096)), GuestAddress(0x9000))).unwrap();
+        GuestRegionMmap::new(reg, GuestAddress(0x9000)).unwrap()
+    };
+    #[cfg(not(feature = "xen"))]
+    let builder_region = {
+        let reg = vm_memory::mmap::MmapRegionBuilder::<()>::new(8192).with_mmap_prot(libc::PROT_READ | libc::PROT_WRITE).with_mmap_flags(libc::MAP_ANONYMOUS | libc::MAP_PRIVATE | libc::MAP_NORESERVE).build().unwrap();
+        GuestRegionMmap::new(reg, GuestAddress(0x20000)).unwrap()
+    };
+    let base: GM = GM::from_ranges(&[(GuestAddress(0x1000), 0x1000), (GuestAddress(0x2000), 0x3000)]).unwrap();
+    let gm = base.insert_region(Arc::new(mk_file(0x2000))).unwrap();
+    #[cfg(not(feature = "xen"))]
+    let gm = gm.insert_region(Arc::new(builder_region)).unwrap();
+    // tag every region
+    for (i, r) in gm.iter().enumerate() {
+        let _ = gm.write_obj::<u8>(0x40 + i as u8, r.start_addr());
+        let _ = gm.write_obj::<u8>(0x60 + i as u8, r.last_addr());
+    }
+    let clone = gm.clone();
+    let (derived, removed) = gm.remove_region(GuestAddress(0x2000), 0x3000).unwrap();
+    let atomic = GuestMemoryAtomic::new(gm.clone());
+    let snapshot = atomic.memory();
+    let nregs = gm.num_regions();
+    let ex = fork::run(20, || {
+        let mut report = String::new();
+        let owners: Vec<(&str, Vec<&Reg>)> = vec![
+            ("map", gm.iter().collect()),
+            ("clone", clone.iter().collect()),
+            ("derived-by-removal", derived.iter().collect()),
+            ("removed-region-handle", vec![&*removed]),
+            ("snapshot", snapshot.iter().collect()),
+        ];
+        'o: for (oname, regs) in owners {
+            for r in regs {
+                // SAFETY: msync only reports whether the range is mapped.
+                let mapped = unsafe { libc::msync(r.as_ptr() as *mut libc::c_void, (r.len() as usize).div_ceil(4096) * 4096, libc::MS_ASYNC) } == 0;
+                if !mapped {
+                    report = format!("{}: region at {:#x} ({} bytes) is not mapped in the child", oname, r.start_addr().0, r.len());
+                    break 'o;
+                }
+                let first = r.read_obj::<u8>(vm_memory::MemoryRegionAddress(0)).unwrap_or(0);
+                if first & 0xf0 != 0x40 {
+                    report = format!("{}: region at {:#x}: tag byte reads {:#x} in the child", oname, r.start_addr().0, first);
+                    break 'o;
+                }
+            }
+        }
+        report.into_bytes()
+    });
+    match ex {
+        Exit::Ok(rep) if rep.is_empty() => {
+            out::key(&format!("fork|child-keeps-mappings|{}regions", nregs), true);
+            out::count("forked_children_checked", 1);
+        }
+        Exit::Ok(rep) => v("fork/live-handle-points-at-unmapped-or-different-memory-in-the-child", J::s(String::from_utf8_lossy(&rep).to_string())),
+        Exit::Signal(sig) => v("fork/child-crashed-using-an-inherited-owner", jobj! {"signal" => fork::signal_name(sig)}),
+        Exit::Panic(p) => v("fork/child-panicked-using-an-inherited-owner", J::s(p)),
+        other => out::note("C12/fork-child-inconclusive", J::dbg(&other)),
+    }
+    // the parent's view is untouched by the child's exit
+    for (i, r) in gm.iter().enumerate() {
+        if gm.read_obj::<u8>(r.start_addr()).ok() != Some(0x40 + i as u8) {
+            v("fork/parent-memory-changed-after-the-child-exited", jobj! {"region" => i});
+        }
+    }
+    out::eval(1);
+}
+
 /// Requests that must be refused. Whatever they mapped on the way has no owner afterwards and
 /// must be gone when the call returns (judged by `settle`: mmaps of the step == munmaps of the step).
 const FAILING: usize = 9;
@@ -965,6 +1045,12 @@ pub fn run(args: &Args) {
     if args.shard().0 == 0 && !cfg!(miri) && interpose::available() {
         if let Err(p) = guarded(external_mappings_grid) {
             v(&format!("panic/external-mappings/{}", panic_sig(&p)), J::s(p));
+        }
+    }
+    #[cfg(not(miri))]
+    if args.shard().0 == 0 {
+        if let Err(p) = guarded(forked_child_keeps_mappings) {
+            v(&format!("panic/fork/{}", panic_sig(&p)), J::s(p));
         }
     }
     for case in args.cases(300) {
